@@ -148,7 +148,10 @@ CLAIMS = {
          "Write/update_reader, all modes, every forced SIMD level.",
          "Proved: any update sequence over any number of instances with clone/reset/finalize/finalize_xof/count interleaved "
          "refines one byte list per instance (history_refines), for every PlatformOK platform; CV-stack invariant (lazy "
-         "merging, popcount rule, capacity 55) by induction. update_rayon/mmap wrappers are C08/C11.",
+         "merging, popcount rule, capacity 55) by induction; END TO END (C02_machine_refines_spec): every history over the whole "
+         "case language (hashers, readers, offsets, merges, trait operations) that the specification-only machine accepts is "
+         "reproduced exactly by the implementation machine, without panic, on every PlatformOK platform; the function items of "
+         "lib.rs are translated and must equal the list the model was written against. update_rayon/mmap wrappers are C08/C11.",
          "Coq proof (stack invariant by induction over operations) + correspondence"),
  "C09": ("Coq theorems (Props/C09.v): helper formulas on all of u64 (translated source text), subtree/merge statements; "
          "correspondence on random decompositions, fixed groups, offsets up to 2^54-64 chunks, documented misuse panics.",
